@@ -30,8 +30,19 @@ Definition plain_prof (grp : Z) (idx : nat) : tprof :=
      tp_comments := ["c" ++ string_of_Z grp ++ ":" ++ string_of_Z i];
      tp_samples := [((if grp =? 0 then "f" else "g") ++ string_of_Z i, i + 1); ("shared", 2 ^ (i mod 62))] |}.
 
-(* outcome kinds of harness/cmd/c16.go -> answers of the fetcher / of fetch() / of CheckValid *)
-Definition source_of (grp : Z) (idx : nat) (t : term) : source tprof :=
+(* kinds 11.. go through the REAL internal/transport object of the run (harness stream "transport"):
+   kind |-> (request seen by the transport, what the server answers once connected) *)
+Definition tr_req_of_kind (kind : Z) : option tr_req :=
+  if (kind =? 11) || (kind =? 12) then Some {| rq_scheme := "http"; rq_trusted := false |}
+  else if (kind =? 13) || (kind =? 16) then Some {| rq_scheme := "https+insecure"; rq_trusted := false |}
+  else if kind =? 14 then Some {| rq_scheme := "https"; rq_trusted := false |}
+  else if kind =? 15 then Some {| rq_scheme := "https"; rq_trusted := true |}
+  else if kind =? 17 then Some {| rq_scheme := "https+insecure"; rq_trusted := true |}
+  else None.
+
+(* outcome kinds of harness/cmd/c16.go -> answers of the fetcher / of fetch() / of CheckValid.
+   [conn e] = the transport connected the request of source e = grp*10^6+idx (only asked for kinds 11..) *)
+Definition source_of (conn : Z -> bool) (grp : Z) (idx : nat) (t : term) : source tprof :=
   let kind := gz (gn t 0) in
   let p := match gl t with [_] => plain_prof grp idx | _ => tprof_of t end in
   let valid := fun _ : tprof => if kind =? 4 then Some "invalid" else None in
@@ -46,14 +57,36 @@ Definition source_of (grp : Z) (idx : nat) (t : term) : source tprof :=
             else if kind =? 7 then FtErr "garbage"
             else if kind =? 8 then FtErr "malformed"
             else if kind =? 9 then FtProfile p "http://c16host/x"
-            else FtErr "http" in
+            else if kind <=? 10 then FtErr "http"
+            else if negb (conn (grp * 1000000 + Z.of_nat idx)) then FtErr "tls"
+            else if (kind =? 12) || (kind =? 17) then FtErr "http"
+            else if kind =? 16 then FtErr "garbage"
+            else FtProfile p "http://real/x" in
   {| s_addr := string_of_Z (Z.of_nat idx); s_res := grab_profile tprof valid fa ft |}.
 
-Fixpoint sources_of (grp : Z) (idx : nat) (l : list term) : list (source tprof) :=
+Fixpoint sources_of (conn : Z -> bool) (grp : Z) (idx : nat) (l : list term) : list (source tprof) :=
   match l with
   | [] => []
-  | t :: r => source_of grp idx t :: sources_of grp (S idx) r
+  | t :: r => source_of conn grp idx t :: sources_of conn grp (S idx) r
   end.
+
+(* the requests that reach the run's transport, in completion order *)
+Definition tr_requests (i : term) : list (Z * tr_req) :=
+  flat_map (fun e =>
+    let g := gz e / 1000000 in
+    match tr_req_of_kind (gz (gn (nth (Z.to_nat (gz e mod 1000000)) (gl (gn i (Z.to_nat g))) (TL [])) 0)) with
+    | Some r => [(gz e, r)]
+    | None => []
+    end) (gl (gn i 2)).
+
+Definition lookup_conn (l : list (Z * bool)) (e : Z) : bool :=
+  match find (fun wb => fst wb =? e) l with Some wb => snd wb | None => false end.
+
+(* MODEL: the transport state is threaded through the requests in the scripted completion order *)
+Definition conn_model (i : term) : Z -> bool := lookup_conn (tr_run TrFresh (tr_requests i)).
+(* SPECIFICATION: every source gets what fetching it ALONE (fresh transport) gives *)
+Definition conn_alone (i : term) : Z -> bool :=
+  lookup_conn (map (fun wr => (fst wr, snd (tr_round_trip TrFresh (snd wr)))) (tr_requests i)).
 
 (* completion order: one number per finished fetch, group * 10^6 + index *)
 Definition sched_of (grp : Z) (t : term) : list nat :=
@@ -73,8 +106,8 @@ Definition status_of (s : string) : status :=
 Definition is_fetch_op (i : term) : bool := String.eqb (gs (gn i 3)) "fetch".
 
 Definition run_C16 (i : term) : term :=
-  let srcs := sources_of 0 0 (gl (gn i 0)) in
-  let bases := sources_of 1 0 (gl (gn i 1)) in
+  let srcs := sources_of (conn_model i) 0 0 (gl (gn i 0)) in
+  let bases := sources_of (conn_model i) 1 0 (gl (gn i 1)) in
   let o := grab_sources_and_bases tprof toy_combine chunk_size srcs bases (sched_of 0 (gn i 2)) (sched_of 1 (gn i 2)) in
   if is_fetch_op i then
     let '(st, p) := match toy_fetch_profiles o with
@@ -105,8 +138,8 @@ Definition eqv_C16 (i m o : term) : bool :=
   end.
 
 Definition spec_C16 (i o : term) : bool :=
-  let srcs := sources_of 0 0 (gl (gn i 0)) in
-  let bases := sources_of 1 0 (gl (gn i 1)) in
+  let srcs := sources_of (conn_alone i) 0 0 (gl (gn i 0)) in
+  let bases := sources_of (conn_alone i) 1 0 (gl (gn i 1)) in
   match o with
   | TL [TS st; ps; pb; _; es; eb; _; _] =>
       if is_fetch_op i
